@@ -33,6 +33,7 @@ pub fn fork_run(timeout_ms: u64, f: impl FnOnce()) -> (Vec<u8>, Vec<u8>, Outcome
       libc::close(ep[0]);
       libc::dup2(ep[1], 2);
       crate::trace::TRACE_FD = tp[1];
+      std::env::set_var("RUST_BACKTRACE", "0");
       f();
       crate::trace::flush();
       libc::_exit(0);
@@ -129,6 +130,9 @@ pub fn run_case_forked(c: &Case, timeout_ms: u64, out: &mut Vec<u8>) {
   }
   let (trace, err, oc) = fork_run(timeout_ms, || crate::interp::run_case(c));
   postprocess(&trace, out);
+  if std::env::var_os("HARNESS_STDERR").is_some() && !err.is_empty() {
+    eprintln!("[{}] child stderr: {}", c.name, String::from_utf8_lossy(&err));
+  }
   let mut put = |s: String| out.extend_from_slice(s.as_bytes());
   match oc {
     Outcome::Exit(0) => {}
